@@ -142,15 +142,16 @@ class extract_visitor(NodeVisitor):
 
     def visit_While(self, node):
         # type: (ast.While) -> None
-        self.visit(node.test)
-        cur = self.flow
+        # the test runs again after every iteration: it sees what the body binds
+        test_start = self.make_flow('while-test', [self.flow])
+        cur = self.visit_in_flow(node.test, test_start)
 
         body_start = self.make_flow('while', [cur])
         body = self.visit_in_flow(node.body, body_start)
-        body_start.loop(body)
+        test_start.loop(body)
 
         orelse = self.visit_in_flow(node.orelse,
-                                    self.make_flow('while-else', [cur, body]))
+                                    self.make_flow('while-else', [cur]))
 
         self.flow = self.make_flow('join', [orelse])
         self.flow.scope.flow = self.flow
